@@ -63,7 +63,7 @@ func TestSweep(t *testing.T) {
 		for _, C := range []int{2, 3, 5} {
 			for partial := 1; partial < C; partial += 2 {
 				F := 9 + ti
-				c := &Case{T: tn, C: C, F: F, RO: 2, Partial: partial, Procs: 8, Repeat: rep}
+				c := &Case{T: tn, C: C, F: F, RO: 2, Partial: partial, Procs: 8, Repeat: rep, Pooled: (ti+C)%2 == 0}
 				c.Bounds = []int{2, F + 1, F + spareFrames(c)}
 				for w := 0; w < 2; w++ {
 					var s []int
